@@ -89,8 +89,39 @@ def validation_dominates_io(repo, col):
                             bad = True
                 if not bad:
                     through.append(n)
-            ok = bool(through) and cfg.every_path_passes(cfg.entry, target,
-                                                         through)
+            # a helper of the class that asserts / tests the validation on
+            # every path, called anywhere in a statement
+            # (`self._checked_scale(key, coords).encoder`)
+            from .core import resolve_local_call as _rl
+            for c2 in calls_in(fn.node):
+                h2 = _rl(fn, c2)
+                if h2 is None or h2.key == fn.key:
+                    continue
+                hcfg = h2.cfg()
+                hn = []
+                for n2 in hcfg.nodes:
+                    a2 = n2.ast
+                    t2 = a2.test if isinstance(a2, (ast.Assert, ast.If)) \
+                        else None
+                    if t2 is not None and any(
+                            isinstance(x, ast.Call) and
+                            _attr_call(x, "validate_chunk_coords")
+                            for x in walk_local(t2)) and \
+                            not _under_not(t2, [x for x in walk_local(t2)
+                                                if isinstance(x, ast.Call) and
+                                                _attr_call(
+                                                    x, "validate_chunk_coords")
+                                                ][0]) and \
+                            isinstance(a2, ast.Assert):
+                        hn.append(n2)
+                if hn and hcfg.every_path_passes(hcfg.entry, hcfg.exit, hn):
+                    st2 = owner.get(id(c2))
+                    n3 = cfg.node_of(st2) if st2 is not None else None
+                    if n3 is not None:
+                        through.append(n3)
+            ok = bool(through) and (target in through or
+                                    cfg.every_path_passes(cfg.entry, target,
+                                                          through))
             path = None
             if not ok:
                 p = cfg.path(cfg.entry, target, avoiding=through)
@@ -1122,6 +1153,24 @@ def minishard_drain(repo, col):
     other_loops = [s for s in stmts_of(fb.node)
                    if isinstance(s, ast.For) and
                    ("self." + bufattr) in norm(s.iter)]
+    if not loops:
+        # the loop may live in a generator of the class that flush_buffer
+        # consumes (`for cmc, buf in self._ready_chunks(): self.append(...)`)
+        from .core import resolve_local_call as _rl
+        for s_ in stmts_of(fb.node):
+            if isinstance(s_, ast.For) and isinstance(s_.iter, ast.Call):
+                g_ = _rl(fb, s_.iter)
+                if g_ is not None and any(isinstance(y, ast.Yield)
+                                          for y in ast.walk(g_.node)):
+                    loops = [w for w in stmts_of(g_.node)
+                             if isinstance(w, ast.While)]
+                    if loops:
+                        fb = g_
+                        break
+    if not loops and not other_loops and any(
+            isinstance(s_, ast.For) for s_ in stmts_of(fb.node)):
+        other_loops = [s_ for s_ in stmts_of(fb.node)
+                       if isinstance(s_, ast.For)]
     if not loops and other_loops:
         col.add(rule, fb, "while self.next_cmc in self._chunk_buffer", True,
                 "flush_buffer walks the buffer in a form this rule does not "
